@@ -116,14 +116,19 @@ def batch_src(calls, efuns):
         for cid, c in calls[b0:b0 + 30]:
             pre, stmt = call_src(c, efuns)
             out.append("  " + " ".join(pre))
-            out.append('  vlog("\\"e\\":\\"Call\\",\\"id\\":%d"); e = catch { %s }; vlog("\\"e\\":\\"Return\\",\\"out\\":\\"" + (e ? "error" : "value") + "\\""); r = 0;' % (cid, stmt))
+            out.append('  vlog("\\"e\\":\\"Call\\",\\"id\\":%d"); e = catch { %s }; vlog("\\"e\\":\\"Return\\",\\"out\\":\\"" + (e ? "error" : "value") + "\\",\\"over\\":\\"" + over(r) + "\\""); r = 0;' % (cid, stmt))
         out.append("}")
         nf += 1
     out += ["void run() {", "  setup();"] + ["  run%d();" % k for k in range(nf)] + ["}"]
     return "\n".join(out) + "\n"
 
 
-def run(tier, work):
+OVER_LIMITS = dict(MaxStringLength=100000, MaxArraySize=8000, MaxMappingSize=3000, MaxBufferSize=1000)
+
+
+def run(tier, work, over_verdict=None):
+    """over_verdict: used by checks/c04.py - the same enumeration with lowered size limits; every value an evaluation
+    produced is measured against them and the ones beyond a limit are added to that verdict (nothing else is judged)"""
     t0 = time.time()
     verdict = vlib.Verdict(PROP)
     exe = build.ensure_harness("vdrv", ["vdrv.cpp"])
@@ -164,7 +169,7 @@ def run(tier, work):
     for cid, c in enumerate(allc):
         g = c.get("name") or c.get("op") or c.get("form")
         groups.setdefault(c["t"][:4] + "_" + g, []).append((cid, c))
-    conf, mdir = work.mudlib()
+    conf, mdir = work.mudlib(conf_extra="".join("%s %d\n" % kv for kv in OVER_LIMITS.items()) if over_verdict is not None else "")
     os.makedirs(os.path.join(mdir, "c01"), exist_ok=True)
     os.makedirs(os.path.join(mdir, "c01tmp"), exist_ok=True)
     scen, gl = [], []
@@ -200,6 +205,23 @@ def run(tier, work):
         scen += scen2
         exs += vlib.run_vdrv(exe, conf, scen2, work, tag="run%d" % rnd_, timeout=60)
     print("RUN %d batches (one process per efun / operator) in %.1fs" % (len(exs), time.time() - t1))
+    if over_verdict is not None:
+        nval = 0
+        for ex in exs:
+            g, fn, cs = gl[int(ex["id"])]
+            cmap = dict(cs)
+            last = None
+            for ev in ex["events"]:
+                if ev.get("e") == "Call":
+                    last = ev["id"]
+                elif ev.get("e") == "Return":
+                    nval += ev["out"] == "value"
+                    if ev.get("over", "") not in ("", "0"):
+                        c = cmap.get(last)
+                        over_verdict.add({"kind": "over-limit", "what": ev["over"].split(":")[0], "group": g},
+                                         [json.dumps(c)] + (call_src(c, efuns)[0] + [call_src(c, efuns)[1]] if c else []),
+                                         "an evaluation produced a value beyond the configured limit (%s): %s" % (ev["over"], json.dumps(c)))
+        return nval
     projs = []
     nret = {"value": 0, "error": 0}
     failing = []
